@@ -666,6 +666,21 @@ fn judge_as(z: &RefZone, sign: &Sign, q: &QSpec, qname: &[Vec<u8>], qtype: u16, 
                     ));
                 }
             }
+            // RFC 4035 3.1.3 / RFC 5155 7.2: NSEC / NSEC3 records accompany negative answers,
+            // wildcard answers and referrals to unsigned children. A plain positive answer (exact
+            // data, or a CNAME chain ending in stored data) has nothing to deny; an NSEC(3) matching
+            // the query name there reads, to a validator, as the claim that the type is absent.
+            let positive = matches!(exp.path, PathKind::ExactHost | PathKind::ExactApex)
+                || (exp.path == PathKind::Cname && matches!(exp.final_step, Step::Data { .. }));
+            let wildcard_seen = act.answer.iter().any(|r| r.covers.is_some_and(|(_, labels)| (labels as usize) < r.owner.len() - usize::from(r.owner.first().is_some_and(|l| l.as_slice() == b"*"))));
+            if positive && !wildcard_seen && act.rcode == wl::RC_NOERROR {
+                if let Some(d) = act.authority.iter().find(|r| r.rtype == wl::T_NSEC || r.rtype == wl::T_NSEC3) {
+                    return Err(Fail::new(
+                        if d.rtype == wl::T_NSEC3 { "positive-answer-carries-nsec3" } else { "positive-answer-carries-nsec" },
+                        format!("a plain positive answer carries {} {} in the authority section\n{}", canon::show(&d.owner), wl::type_name(d.rtype), ctx()),
+                    ));
+                }
+            }
         }
         // --- AA (last, so that a response deviating only in AA is reported as exactly that) -----------
         if let Some(aa) = exp.aa {
